@@ -18,6 +18,8 @@ def replay_luhn(digits, what, pos=None, x=None, swap=None, xbase=48):
         got = card.calculate_check_digit(digits)
         return got != _luhn(only), 'check digit of %s is %r, Luhn gives %r' % (digits, got, _luhn(only)), 'C15/digit'
     good = card.add_check_digit(digits)
+    if good != digits + _luhn(only):
+        return True, 'add_check_digit(%s) = %r, expected the number with its Luhn digit %s appended' % (digits, good, _luhn(only)), 'C15/append'
 
     def accepted(s):
         try:
